@@ -29,6 +29,9 @@ pub enum TOp {
   AB(u32),
   /// alloc::<u128>() (alignment 16: twice the alignment of a free-list node), keep
   T16,
+  /// an observer: allocated() within [data_offset, capacity], slices as long as the accessors say, readers
+  /// refuse the first offset beyond the capacity
+  Probe,
   /// alloc_bytes_owned(n): handle embeds a clone of the arena
   BO(u32),
   /// release the most recent allocation of this thread
@@ -49,6 +52,7 @@ impl TOp {
       TOp::U64 => "U64".into(),
       TOp::AB(n) => format!("AB{n}"),
       TOp::T16 => "T16".into(),
+      TOp::Probe => "Probe".into(),
       TOp::BO(n) => format!("BO{n}"),
       TOp::DropOwn => "D".into(),
       TOp::DropPre(i) => format!("Dp{i}"),
@@ -861,6 +865,35 @@ fn run_thread(tid: usize, sh: &Shared, prog: &[TOp], mine: Option<Arena>) {
         }
         Err(_) => tr(tid, || "U64 failed".into()),
       },
+      TOp::Probe => {
+        let (cap, dof) = (a.capacity(), a.data_offset());
+        let al = a.allocated();
+        let mut bad = vec![];
+        if al > cap || al < dof {
+          bad.push(format!("allocated() = {} outside [data_offset {}, capacity {}]", al, dof, cap));
+        }
+        let aml = a.allocated_memory().len();
+        if aml > cap {
+          bad.push(format!("allocated_memory() has {} bytes, capacity {}", aml, cap));
+        }
+        if a.remaining() > cap - dof {
+          bad.push(format!("remaining() = {} with capacity {} and data_offset {}", a.remaining(), cap, dof));
+        }
+        if a.get_u8(cap).is_ok() {
+          bad.push(format!("get_u8(capacity() = {}) returned Ok", cap));
+        }
+        if a.get_u64_le(cap - 7).is_ok() {
+          bad.push(format!("get_u64_le({}) returned Ok although it ends beyond the capacity {}", cap - 7, cap));
+        }
+        if !bad.is_empty() {
+          ENG.with(|e| {
+            let mut e = e.borrow_mut();
+            for m in bad {
+              e.viol.push(V { class: "reader-bounds".into(), sig: "reader-bounds:concurrent".into(), msg: format!("thread {}: {}", tid, m) });
+            }
+          });
+        }
+      }
       TOp::T16 => match unsafe { a.alloc::<u128>() } {
         Ok(mut b) => {
           unsafe { b.detach() };
